@@ -27,8 +27,20 @@ FIXED_ID = "test-body-never-run"
 
 
 class Fn:
-    def __init__(self, name, decs=(), params=(), body="pass", is_async=False, ret="None"):
+    # return-type shapes a test function can be declared with (an annotation is mandatory in Incan: `def f():` does
+    # not parse): (annotation, statement that ends the body, does a #[test] harness of that type build?)
+    SHAPES = {"None": ("None", None, True), "Unit": ("Unit", None, True), "int": ("int", "return 1", False),
+              "bool": ("bool", "return true", False), "Option[int]": ("Option[int]", "return Some(1)", False),
+              "Result[None, str]": ("Result[None, str]", "return Ok(c16_done())", True)}
+
+    def __init__(self, name, decs=(), params=(), body="pass", is_async=False, ret="None", pub=False, doc=None):
         self.name, self.decs, self.params, self.body, self.is_async, self.ret = name, list(decs), list(params), body, is_async, ret
+        self.pub, self.doc = pub, doc
+
+    def builds(self):
+        """does the Cargo project generated for THIS function (it alone gets #[test]) build? `fn() -> i64` etc. are
+        rejected by rustc (`i64: Termination` is not satisfied), so such a test can only be FAILED."""
+        return Fn.SHAPES.get(self.ret, (None, None, True))[2]
 
     def src(self):
         out = []
@@ -46,9 +58,14 @@ class Fn:
             elif spec[0] == "raw":
                 out.append("@%s(%s)" % (dn, spec[1]))
         ps = ", ".join("%s: int" % p for p in self.params)
-        out.append("%sdef %s(%s) -> %s:" % ("async " if self.is_async else "", self.name, ps, self.ret))
+        out.append("%s%sdef %s(%s) -> %s:" % ("pub " if self.pub else "", "async " if self.is_async else "", self.name, ps, self.ret))
+        if self.doc is not None:
+            out.append('    """%s"""' % self.doc)
         for l in self.body.split("\n"):
             out.append("    " + l)
+        tail = Fn.SHAPES.get(self.ret, (None, None, True))[1]
+        if tail and not self.body.rstrip().split("\n")[-1].lstrip().startswith("return"):
+            out.append("    " + tail)
         return "\n".join(out) + "\n"
 
     def first_pos_arg(self, spec):
@@ -81,7 +98,7 @@ class TFile:
         return "\n".join(parts)
 
     def all_decls(self):
-        ds = [Fn("c16_file_marker_%d" % self.marker, ret="int", body="return %d" % self.marker)] + list(self.decls)
+        ds = [Fn("c16_file_marker_%d" % self.marker, ret="int", body="return %d" % self.marker), Fn("c16_done")] + list(self.decls)
         if self.typeerr:
             ds.append(Fn("c16_type_error", body='x: int = "not an int"'))
         return ds
@@ -207,7 +224,11 @@ def gen_fn(rng, used):
     if any(d == "parametrize" for d, _ in decs):
         params.append("v")
     body = rng.choice(BODIES)
-    return Fn(name, decs, params, body, is_async=(rng.random() < 0.04))
+    ret = "None" if rng.random() < 0.6 else rng.choice(["Unit", "int", "bool", "Option[int]", "Result[None, str]", "Result[None, str]"])
+    if ret in ("None", "Unit") and rng.random() < 0.1:
+        body = "x = 1\nif x == 1:\n    return\n" + body
+    return Fn(name, decs, params, body, is_async=(rng.random() < 0.04), ret=ret, pub=(rng.random() < 0.08),
+              doc=("Docstring first." if rng.random() < 0.12 else None))
 
 
 def gen_file(rng, idx, forced_name=None):
@@ -247,6 +268,8 @@ def gen_file(rng, idx, forced_name=None):
         if f.params and rng.random() < 0.2:
             f.params.append("extra")
         decls.append(f)
+    if rng.random() < 0.1:
+        decls.insert(rng.randrange(len(decls) + 1), Fn("main", body='println("hi")'))
     return TFile(name, idx, decls, typeerr=(rng.random() < 0.07),
                  imports="from testing import assert_eq, assert_true, fail\n")
 
@@ -617,9 +640,52 @@ def truth_files(tier):
     ], imports=TRUTH_IMPORT)
     tn = {"test_add": True, "test_add_big": False, "test_add_big_overflow": False, "test_sub": True, "test_sub_neg": False,
           "test_mul": True, "test_mul_slow": False}
-    sets = [(fn_, tn, []), (fp, tp, [])]
+    # every signature shape a test can have; the Result-returning (`?` style) ones fail by returning Err
+    helpers = [
+        Fn("parse_positive", params=["n"], ret="Result[int, str]", body='if n < 0:\n    return Err("negative")\nreturn Ok(n)'),
+        Fn("helper_inner", params=["x"], ret="int", body="assert_eq(x, 1)\nreturn x"),
+        Fn("helper_outer", params=["x"], ret="int", body="return helper_inner(x) + 1"),
+    ]
+    R = "Result[None, str]"
+    shapes_quick = [
+        Fn("test_result_ok", ret=R, body="v = parse_positive(3)?\nassert_eq(v, 3)"),
+        Fn("test_result_assert_fails", ret=R, body="v = parse_positive(3)?\nassert_eq(v, 4)"),
+        Fn("test_result_q_err", ret=R, body="v = parse_positive(-1)?\nassert_eq(v, 0)"),
+        Fn("test_int_body_passes", ret="int", body="assert_eq(1, 1)"),
+    ]
+    tq = {"test_result_ok": True, "test_result_assert_fails": False, "test_result_q_err": False, "test_int_body_passes": True}
+    fs = TFile("test_truth_shapes.incn", 8, helpers + shapes_quick, imports=TRUTH_IMPORT)
+    sets = [(fn_, tn, []), (fp, tp, []), (fs, tq, [])]
     if tier == "thorough":
         sets.append((trio, truth, []))
+        shapes_all = [
+            Fn("main", body='println("a test file may have a main")'),
+            Fn("test_result_returns_err", ret=R, body='return Err("explicit")'),
+            Fn("test_result_xfail_err", ret=R, decs=[("xfail", ("pos", "r"))], body='return Err("explicit")'),
+            Fn("test_int_body_fails", ret="int", body="assert_eq(1, 2)"),
+            Fn("test_bool_body_passes", ret="bool", body="assert_eq(1, 1)"),
+            Fn("test_option_body_passes", ret="Option[int]", body="assert_eq(1, 1)"),
+            Fn("test_unit_alias_passes", ret="Unit", body="assert_eq(1, 1)"),
+            Fn("test_unit_alias_fails", ret="Unit", body="assert_eq(1, 2)"),
+            Fn("test_doc_passes", doc="Docstring first.", body="assert_eq(2, 2)"),
+            Fn("test_doc_fails", doc="Docstring first.", body="assert_eq(2, 3)"),
+            Fn("test_pub_passes", pub=True, body="assert_eq(2, 2)"),
+            Fn("test_pub_fails", pub=True, body="assert_eq(2, 3)"),
+            Fn("test_nested_passes", body="assert_eq(helper_outer(1), 2)"),
+            Fn("test_nested_fails", body="assert_eq(helper_outer(5), 6)"),
+            Fn("test_early_return_passes", body="x = 1\nif x == 1:\n    return\nassert_eq(1, 2)"),
+            Fn("test_early_return_fails", body="x = 1\nif x == 2:\n    return\nassert_eq(1, 2)"),
+            Fn("test_dec_xfail_slow_fails", decs=[("xfail", ("pos", "a")), ("slow", None)], body="assert_eq(1, 2)"),
+            Fn("test_dec_slow_xfail_passes", decs=[("slow", None), ("xfail", ("pos", "b"))], body="assert_eq(1, 1)"),
+            Fn("test_dec_skip_xfail_fails", decs=[("skip", ("pos", "s")), ("xfail", ("pos", "b"))], body="assert_eq(1, 2)"),
+            Fn("test_dec_xfail_skip_fails", decs=[("xfail", ("pos", "b")), ("skip", ("pos", "s"))], body="assert_eq(1, 2)"),
+        ]
+        ta = {"test_result_returns_err": False, "test_result_xfail_err": False, "test_int_body_fails": False, "test_bool_body_passes": True,
+              "test_option_body_passes": True, "test_unit_alias_passes": True, "test_unit_alias_fails": False, "test_doc_passes": True,
+              "test_doc_fails": False, "test_pub_passes": True, "test_pub_fails": False, "test_nested_passes": True, "test_nested_fails": False,
+              "test_early_return_passes": True, "test_early_return_fails": False, "test_dec_xfail_slow_fails": False,
+              "test_dec_slow_xfail_passes": True, "test_dec_skip_xfail_fails": False, "test_dec_xfail_skip_fails": False}
+        sets.append((TFile("test_truth_shapes_all.incn", 9, helpers + shapes_all, imports=TRUTH_IMPORT), ta, ["--slow"]))
         # every combination base x longer-named sibling: base in {pass, fail, xfail-pass, xfail-fail},
         # sibling marker in {none, skip, xfail, slow}, sibling body in {pass, fail}; run with --slow
         k = 0
@@ -679,7 +745,7 @@ def truth_expected(f, truth, extra=()):
             continue
         skips = [r for m, r in ms if m == "skip"]
         xf = [r for m, r in ms if m == "xfail"]
-        ok = f.compiles() and truth[d.name]
+        ok = f.compiles() and d.builds() and truth[d.name]
         if skips:
             lines.append((f.name, d.name, 2, skips[0]))
         elif xf:
@@ -735,7 +801,7 @@ def run_truth(chk, binary, res):
                 corr.append({"file": f.name, "source": f.text(),
                              "model_vs_impl": [("functions carrying #[test] in the harness generated for %s" % n, want_marked, v.get("marked"))]})
         for n, v in rb.items():
-            if n in decl and f.compiles() and v != model_runs_body(decl[n]):
+            if n in decl and v != model_runs_body(decl[n]):
                 corr.append({"file": f.name, "source": f.text(),
                              "model_vs_impl": [("generated harness executes %s" % n, model_runs_body(decl[n]),
                                                 {k: h[n].get(k) for k in ("test_attrs", "selected_is_test", "has_main", "calls_selected")})]})
@@ -755,7 +821,7 @@ def run_truth(chk, binary, res):
             d = decl.get(n)
             # class Known_C16_body_not_executed, decided on what the GENERATED code does (measured), for a test
             # the model says the harness cannot execute (parameters / async); anything else is a new failing input
-            in_class = (d is not None and f.compiles() and truth.get(n) is False and not rb.get(n, False)
+            in_class = (d is not None and f.compiles() and d.builds() and truth.get(n) is False and not rb.get(n, False)
                         and h.get(n, {}).get("test_attrs", 0) == 0 and not model_runs_body(d)
                         and not any(m == "skip" for m, _ in py_markers(d)))
             if in_class:
@@ -773,14 +839,16 @@ def run_truth(chk, binary, res):
 def coq_truth_term(f, truth, extra):
     """model of a real-cargo run: loop over the discovered+selected tests with raw_of_harness harness_runs_body."""
     ok_names = "[" + "; ".join(cstr(n) for n, v in truth.items() if v) + "]"
-    return "(%s, %s, %s, %s)" % (coq_node(f), "true" if "--slow" in extra else "false", "true" if f.compiles() else "false", ok_names)
+    nobuild = "[" + "; ".join(cstr(d.name) for d in f.decls if isinstance(d, Fn) and not d.builds()) + "]"
+    return "(%s, %s, %s, %s, %s)" % (coq_node(f), "true" if "--slow" in extra else "false", "true" if f.compiles() else "false", ok_names, nobuild)
 
 
-TRUTH_RUN = ("fun c => let '(n, slow, comp, oks) := c in "
+TRUTH_RUN = ("fun c => let '(n, slow, comp0, oks, nobuild) := c in "
+             "let comp := fun t : test => comp0 && negb (mem_str (t_name t) nobuild) in "
              "let ts := select None slow (all_tests (discover_files (Some n))) in "
-             "let s := loop false (raw_of_harness gen_current (fun _ => comp) (fun t => mem_str (t_name t) oks)) ts st0 in "
+             "let s := loop false (raw_of_harness gen_current comp (fun t => mem_str (t_name t) oks)) ts st0 in "
              "(map (fun tr => (t_name (fst tr), fst (render_result (snd tr)))) (results s), exit_code s, "
-             " map (fun t => (t_name t, known_body_not_executedb gen_current (fun _ => comp) (fun t => mem_str (t_name t) oks) t, harness_runs_body t)) ts)")
+             " map (fun t => (t_name t, known_body_not_executedb gen_current comp (fun t => mem_str (t_name t) oks) t, harness_runs_body t)) ts)")
 
 
 # ------------------------------------------------------------------------------------------------
@@ -1037,7 +1105,7 @@ def run(chk):
     for (f, truth, extra) in tsets:
         chk.count_case(("real-cargo", f.name, tuple(extra)), nontrivial=True)
     if model_ok:
-        ty = "node * bool * bool * list str"
+        ty = "node * bool * bool * list str * list str"
         tm = vlib.coq_eval(req, ty, TRUTH_RUN, [coq_truth_term(f, t, e) for (f, t, e) in tsets], tag="c16t", extra_defs=COQ_DEFS)
         for (f, truth, extra), r, m in zip(tsets, truns, tm):
             mres = [(pystr(n), code) for (n, code) in m[0]]
@@ -1049,7 +1117,7 @@ def run(chk):
             decl = {d.name: d for d in f.decls if isinstance(d, Fn)}
             coq_known = {pystr(n) for (n, k, _) in m[2] if k}
             skipped = {d.name for d in f.decls if isinstance(d, Fn) and any(mk == "skip" for mk, _ in py_markers(d))}
-            py_class = {n for n, d in decl.items() if n.startswith("test_") and f.compiles() and truth.get(n) is False and not model_runs_body(d)}
+            py_class = {n for n, d in decl.items() if n.startswith("test_") and f.compiles() and d.builds() and truth.get(n) is False and not model_runs_body(d)}
             if py_class != coq_known:
                 corr_bad.append({"file": f.name, "model_vs_impl": [("known-class membership (Python mirror vs Coq predicate)", sorted(coq_known), sorted(py_class))]})
             for (n, _, rbm) in m[2]:
